@@ -4,6 +4,9 @@ CONSTANTS
   Echo = TRUE
   MaxLen = 8
   Fixes = {}
+  Syms = {"init", "initrej", "terminate", "ping", "sub1q", "sub1s", "sub2q", "subbad", "comp1", "comp9", "malformed", "missingid", "readerr"}
+  EngWhats = {"data", "fin", "error", "result"}
+  Extras = TRUE
   MaxIn = 5
   MaxEng = 3
   PreInit = FALSE
